@@ -70,6 +70,73 @@ func mkSide(r *vt.Rng, kind int, dl *big.Int, t int) side {
 	}
 }
 
+
+// a verification request of known class
+type vclass struct {
+	lenOK, sLt, aDec, aCanon, aZero, rDec, rCanon, rZero, eqPrime bool
+	tA, tR, k8                                                    int
+}
+
+func (c vclass) ev() vt.Ev {
+	return vt.Ev{"lenOK": c.lenOK, "sLt": c.sLt, "aDec": c.aDec, "aCanon": c.aCanon, "aZero": c.aZero, "tA": c.tA,
+		"rDec": c.rDec, "rCanon": c.rCanon, "rZero": c.rZero, "tR": c.tR, "k8": c.k8, "eqPrime": c.eqPrime}
+}
+
+type vrequest struct {
+	pk, msg, sig, ctx []byte
+	f                 string
+	cls               vclass
+	req               vt.Ev
+}
+
+// makeRequest builds the signature bytes for sides A, R (secret scalar a) and returns the request with its class.
+// sVariant: 0 S*, 1 S*+L, 2 S*+1, 3 high bits, 4 boundary value (forcedS if non-nil); lenVariant: 0 64, 1 63, 2 65, 3 0 bytes.
+func makeRequest(r *vt.Rng, A, R side, a *big.Int, f string, ctxb, msg []byte, sVariant, lenVariant int, forcedS *big.Int) vrequest {
+	_, _, k := vt.Challenge(f, ctxb, R.enc, A.enc, msg)
+	S := new(big.Int).Mod(new(big.Int).Add(R.dlog, new(big.Int).Mul(k, a)), vt.L)
+	eq := A.known && R.known
+	sLt := true
+	switch sVariant {
+	case 1:
+		S.Add(S, vt.L)
+		sLt = false
+	case 2:
+		S.Add(S, big.NewInt(1))
+		S.Mod(S, vt.L)
+		eq = false
+	case 3:
+		S.SetBit(S, 253+r.Intn(3), 1)
+		sLt = false
+	case 4:
+		S = []*big.Int{big.NewInt(0), new(big.Int).Sub(vt.L, big.NewInt(1)), new(big.Int).Set(vt.L), new(big.Int).Add(vt.L, big.NewInt(1)),
+			new(big.Int).Sub(new(big.Int).Lsh(big.NewInt(1), 256), big.NewInt(1))}[r.Intn(5)]
+		if forcedS != nil {
+			S = forcedS
+		}
+		sLt = S.Cmp(vt.L) < 0
+		want := new(big.Int).Mod(new(big.Int).Add(R.dlog, new(big.Int).Mul(k, a)), vt.L)
+		eq = eq && new(big.Int).Mod(S, vt.L).Cmp(want) == 0
+	}
+	sig := append(append([]byte(nil), R.enc...), vt.LE(S, 32)...)
+	lenOK := true
+	switch lenVariant {
+	case 1:
+		sig = sig[:63]
+		lenOK = false
+	case 2:
+		sig = append(sig, 0)
+		lenOK = false
+	case 3:
+		sig = nil
+		lenOK = false
+	}
+	cls := vclass{lenOK: lenOK, sLt: sLt, aDec: A.dec, aCanon: A.canon, aZero: A.zero, tA: A.t, rDec: R.dec, rCanon: R.canon,
+		rZero: R.zero, tR: R.t, k8: int(new(big.Int).Mod(k, big.NewInt(8)).Int64()), eqPrime: eq}
+	hin2, h2, _ := vt.Challenge(f, ctxb, headOr(sig, R.enc), A.enc, msg) // over the signature bytes actually sent
+	req := vt.Ev{"pk": vt.B(A.enc), "msg": vt.B(msg), "sig": vt.B(sig), "f": f, "ctx": vt.B(ctxb), "h": vt.B(h2), "hin": vt.B(hin2)}
+	return vrequest{pk: A.enc, msg: msg, sig: sig, ctx: ctxb, f: f, cls: cls, req: req}
+}
+
 func recC01(c *ctx) {
 	r := c.r
 	opts := allOpts()
@@ -80,52 +147,8 @@ func recC01(c *ctx) {
 	nreq := 0
 	var forcedS *big.Int
 	emit := func(A, R side, a *big.Int, f string, ctxb, msg []byte, sVariant int, lenVariant int, only []vopts) {
-		hin, h, k := vt.Challenge(f, ctxb, R.enc, A.enc, msg)
-		_ = hin
-		// S* = r + k a (prime-order dlogs); the equation's prime part holds iff S = S*
-		S := new(big.Int).Mod(new(big.Int).Add(R.dlog, new(big.Int).Mul(k, a)), vt.L)
-		eq := A.known && R.known
-		sLt := true
-		switch sVariant {
-		case 1: // S* + L: same residue, not minimal
-			S.Add(S, vt.L)
-			sLt = false
-		case 2: // S* + 1: equation fails
-			S.Add(S, big.NewInt(1))
-			S.Mod(S, vt.L)
-			eq = false
-		case 3: // high bits set on S* (value >= 2^253): not minimal
-			S.SetBit(S, 253+r.Intn(3), 1)
-			sLt = false
-		case 4: // boundary values unrelated to the equation
-			S = []*big.Int{big.NewInt(0), new(big.Int).Sub(vt.L, big.NewInt(1)), new(big.Int).Set(vt.L), new(big.Int).Add(vt.L, big.NewInt(1)),
-				new(big.Int).Sub(new(big.Int).Lsh(big.NewInt(1), 256), big.NewInt(1))}[r.Intn(5)]
-			if forcedS != nil {
-				S = forcedS
-			}
-			sLt = S.Cmp(vt.L) < 0
-			want := new(big.Int).Mod(new(big.Int).Add(R.dlog, new(big.Int).Mul(k, a)), vt.L)
-			eq = eq && new(big.Int).Mod(S, vt.L).Cmp(want) == 0
-		}
-		sig := append(append([]byte(nil), R.enc...), vt.LE(S, 32)...)
-		lenOK := true
-		switch lenVariant {
-		case 1:
-			sig = sig[:63]
-			lenOK = false
-		case 2:
-			sig = append(sig, 0)
-			lenOK = false
-		case 3:
-			sig = nil
-			lenOK = false
-		}
-		cl := vt.Ev{"lenOK": lenOK, "sLt": sLt, "aDec": A.dec, "aCanon": A.canon, "aZero": A.zero, "tA": A.t,
-			"rDec": R.dec, "rCanon": R.canon, "rZero": R.zero, "tR": R.t,
-			"k8": int(new(big.Int).Mod(k, big.NewInt(8)).Int64()), "eqPrime": eq}
-		hin2, h2, _ := vt.Challenge(f, ctxb, headOr(sig, R.enc), A.enc, msg) // over the signature bytes actually sent
-		_, _ = hin, h
-		req := vt.Ev{"pk": vt.B(A.enc), "msg": vt.B(msg), "sig": vt.B(sig), "f": f, "ctx": vt.B(ctxb), "h": vt.B(h2), "hin": vt.B(hin2)}
+		rq := makeRequest(r, A, R, a, f, ctxb, msg, sVariant, lenVariant, forcedS)
+		cl, req, sig := rq.cls.ev(), rq.req, rq.sig
 		nreq++
 		xk, xerr := ed25519.NewExpandedPublicKey(A.enc)
 		for _, o := range only {
